@@ -1036,6 +1036,9 @@ class FnLower:
             if at[0] == 'array':
                 base = self.addr(args[0])
                 return '(&(%s)->a[%d])' % (base, 0 if 'begin' in name else at[2]), False
+            if at[0] == 'stdarray':
+                base = self.addr(args[0])
+                return '(&(%s)->e[%d])' % (base, 0 if 'begin' in name else at[2]), False
             if at[0] == 'rec':
                 want = name.lstrip('c') if name.startswith('c') else name
                 ms = [m for m in self.idx.methods(at[1]) if m.get('name') == want and not [p for p in m.get('inner', []) if p.get('kind') == 'ParmVarDecl'] and self.idx.defn.get(m['id']) is not None]
@@ -1429,6 +1432,9 @@ class FnLower:
             txt, isptr = self.call(e)
             if isptr: return '(*%s)' % txt
             self.unsupported('call result by value used as lvalue')
+        if k == 'BinaryOperator' and e.get('opcode') == ',':
+            self.expr_stmt(e['inner'][0])          # (a, b) as an lvalue: a for its effects, then the object b designates
+            return self.lv(e['inner'][1])
         if k == 'BinaryOperator' and e.get('opcode') in ('=',) or k == 'CompoundAssignOperator':
             lhs, rhs = self.assign_parts(e)
             self.emit('%s %s %s;' % (lhs, e['opcode'], rhs))
